@@ -46,6 +46,9 @@ func (g *irgo) typ(t types.Type) string {
 	if bad != "" {
 		g.unsupported("type from another package: %s", s)
 	}
+	if b, ok := t.(*types.Basic); ok && b.Kind() == types.UntypedBool {
+		return "bool"
+	}
 	if strings.Contains(s, "untyped") || strings.Contains(s, "invalid") || strings.Contains(s, "deferStack") || strings.Contains(s, "iterator") {
 		g.unsupported("unprintable type %s", s)
 	}
@@ -69,6 +72,20 @@ func (g *irgo) newState(fn *ir.Function) *fnState {
 }
 
 func (st *fnState) label(b *ir.BasicBlock) string { return fmt.Sprintf("b%d_%d", st.id, b.Index) }
+
+// nilOnly reports whether v is the nil constant of a type whose values can
+// only be compared with the predeclared nil.
+func nilOnly(v ir.Value) bool {
+	c, ok := v.(*ir.Const)
+	if !ok || c.Value != nil {
+		return false
+	}
+	switch c.Type().Underlying().(type) {
+	case *types.Signature, *types.Slice, *types.Map:
+		return true
+	}
+	return false
+}
 
 func (st *fnState) constant(c *ir.Const) string {
 	g := st.g
@@ -140,7 +157,19 @@ func (st *fnState) ref(v ir.Value) string {
 
 func (st *fnState) funcRef(f *ir.Function) string {
 	if f.Parent() != nil {
-		st.g.unsupported("reference to anonymous function %s outside MakeClosure", f)
+		// an anonymous function without free variables is referenced directly
+		if len(f.FreeVars) != 0 || f.Synthetic != "" {
+			st.g.unsupported("reference to anonymous function %s outside MakeClosure", f)
+		}
+		g := st.g
+		if g.depth > 2 {
+			g.unsupported("closure nesting too deep")
+		}
+		g.depth++
+		inner := g.newState(f)
+		body := inner.render()
+		g.depth--
+		return fmt.Sprintf("(func%s {\n%s\t})", inner.signature(), body)
 	}
 	if f.Synthetic != "" && len(f.TypeArgs()) == 0 {
 		st.g.unsupported("synthetic function %s", f)
@@ -350,7 +379,17 @@ func (st *fnState) instr(ins ir.Instruction) string {
 		if !ok {
 			g.unsupported("binop %s", ins.Op)
 		}
-		return fmt.Sprintf("%s = %s(%s %s %s)", st.names[ins], g.typ(ins.Type()), st.ref(ins.X), op, st.ref(ins.Y))
+		x, y := st.ref(ins.X), st.ref(ins.Y)
+		if ins.Op == token.EQL || ins.Op == token.NEQ {
+			// funcs, slices and maps compare with the untyped nil only
+			if nilOnly(ins.X) {
+				x = "nil"
+			}
+			if nilOnly(ins.Y) {
+				y = "nil"
+			}
+		}
+		return fmt.Sprintf("%s = %s(%s %s %s)", st.names[ins], g.typ(ins.Type()), x, op, y)
 	case *ir.UnOp:
 		op := map[token.Token]string{token.SUB: "-", token.XOR: "^", token.NOT: "!"}[ins.Op]
 		if op == "" {
@@ -503,7 +542,7 @@ func (st *fnState) closure(mc *ir.MakeClosure) string {
 	if !ok {
 		g.unsupported("MakeClosure of %T", mc.Fn)
 	}
-	if fn.Synthetic != "" {
+	if fn.Synthetic != "" && fn.Synthetic != "range-over-func yield" {
 		g.unsupported("synthetic closure %s", fn)
 	}
 	if g.depth > 2 {
